@@ -30,7 +30,8 @@ impl Axecutor {
         let (dest, src) = self.instruction_operands_2(i)?;
 
         let src_addr = match src {
-            Operand::Memory(m) => self.mem_addr(m),
+            // LEA ignores segment overrides: no FS/GS base is added
+            Operand::Memory(m) => self.mem_addr_without_segment(m),
             _ => fatal_error!("Invalid source operand {:?} for LEA r16, m", src),
         };
 
@@ -49,7 +50,8 @@ impl Axecutor {
         let (dest, src) = self.instruction_operands_2(i)?;
 
         let src_addr = match src {
-            Operand::Memory(m) => self.mem_addr(m),
+            // LEA ignores segment overrides: no FS/GS base is added
+            Operand::Memory(m) => self.mem_addr_without_segment(m),
             _ => fatal_error!("Invalid source operand {:?} for LEA r32, m", src),
         };
 
@@ -68,7 +70,8 @@ impl Axecutor {
         let (dest, src) = self.instruction_operands_2(i)?;
 
         let src_addr = match src {
-            Operand::Memory(m) => self.mem_addr(m),
+            // LEA ignores segment overrides: no FS/GS base is added
+            Operand::Memory(m) => self.mem_addr_without_segment(m),
             _ => fatal_error!("Invalid source operand {:?} for LEA r64, m", src),
         };
 
